@@ -5,6 +5,8 @@ open Biogo.Properties.C08_aff
 #print axioms fittedOpt_optimal
 #print axioms nwAffine_opt_partial
 #print axioms swAffine_opt_partial
+#print axioms fittedAffine_opt_partial
+#print axioms fittedAffine_not_opt
 #print axioms nwAffine_not_opt
 #print axioms noAdj_suffices
 #print axioms nwAffine_opt_of_side_condition
